@@ -6,8 +6,9 @@ export CARGO_NET_OFFLINE=true
 mkdir -p out evidence
 cp /repo/Cargo.lock replay/Cargo.lock 2>/dev/null || true
 (cd replay && RUSTFLAGS="--cfg vaporetto_verif" cargo build --release --offline -q) || echo "warning: replay crate did not build (checks still run; counterexample search disabled)"
-# the command-line tools for the C20 sweep (build output stays under /verif)
-(cd /repo && CARGO_TARGET_DIR="$PWD/../verif/target_cli" cargo build --release --offline -q -p predict -p evaluate) >/dev/null 2>&1 || echo "warning: predict/evaluate did not build"
+(cd replay_tantivy && cp /repo/Cargo.lock Cargo.lock 2>/dev/null; cargo build --release --offline -q) >/dev/null 2>&1 || echo "warning: replay_tantivy did not build"
+# the command-line tools for the C19/C20 sweeps (build output stays under /verif)
+(cd /repo && CARGO_TARGET_DIR="$PWD/../verif/target_cli" cargo build --release --offline -q -p predict -p evaluate -p manipulate_model) >/dev/null 2>&1 || echo "warning: predict/evaluate did not build"
 printf 'use vstd::prelude::*;\nverus!{ proof fn warm() ensures 1 + 1 == 2int {} }\nfn main(){}\n' > out/_warm.rs
 (cd out && verus _warm.rs >/dev/null 2>&1) || true
 echo setup-done
